@@ -176,7 +176,7 @@ func c11oracle(x *lib.Exec, w *World, c c11case, hashes map[string]string) {
 	mode := string(c.Mode)
 	err := x.ClientErr[0]
 	// spec
-	winner := map[string]string{}          // path -> content name of the latest upload
+	winner := map[string]string{}            // path -> content name of the latest upload
 	versions := map[string]map[string]bool{} // path -> set of distinct content names
 	for _, s := range c.Splits {             // upload-time order
 		for p, cn := range s {
@@ -416,7 +416,9 @@ func c11orderShape(outcomes []string) []string {
 		}
 		sets = append(sets, parse(o))
 	}
-	isSide := func(n string) bool { return strings.HasPrefix(n, ".conflicts/") || strings.HasPrefix(n, ".checkpoints/") }
+	isSide := func(n string) bool {
+		return strings.HasPrefix(n, ".conflicts/") || strings.HasPrefix(n, ".checkpoints/")
+	}
 	kinds := map[string]bool{}
 	for _, a := range sets {
 		for n, h := range a {
